@@ -591,6 +591,11 @@ func (m *RegistryMonitor) OnBlock(h *History, b *Block, txs []*GenTx, ref *Block
 		}
 		for c := range want[a] {
 			if !have[c] {
+				if KeyManagerGenesisChurp && churpClaims[c] && strings.HasSuffix(string(c), ".200") {
+					// The CHURP instance (id 200) that the genesis document of this history carries.
+					viol("missing-stake-claim/churp-instance-of-the-genesis-document", fmt.Sprintf("account %s lacks claim %q although the CHURP instance listed in the genesis document is stored: InitChain of the key manager application stores genesis CHURP instances without adding their stake claim", a, c), nil)
+					continue
+				}
 				viol("missing-stake-claim", fmt.Sprintf("account %s lacks claim %q implied by a registered object", a, c), nil)
 			}
 		}
